@@ -4,7 +4,7 @@ from __future__ import annotations
 import ast
 
 from ..contracts import *  # noqa: F401,F403
-from ..anchors import UNIT_CREATION_ENTRY_POINTS, unit_creator
+from ..anchors import UNIT_CREATION_ENTRY_POINTS, unit_creator, unit_creator_args
 from ..effects import CallGraph, check_ownership, inventory
 from ..loader import AnalysisError, src_of
 from ..report import Result
@@ -251,7 +251,8 @@ def run(prog, tier) -> Result:
     def mk_body(I, c):
         base_types(c)
         d = TermV(RF.atom(("defmag",)), {"T1": (1, 0)})
-        return I.call_function(mk, [c.cls("T1"), StrV(None, "symbol"), StrV(None, "name"), d], {})
+        a_, k_ = unit_creator_args(prog)(c.cls("T1"), StrV(None, "symbol"), StrV(None, "name"), d)
+        return I.call_function(mk, a_, k_)
 
     def judge_absent(o):
         r = judge_unit_registered(o, want_def_mag=None)
